@@ -134,6 +134,11 @@ def _image(spec, ctx, R):
     if kind in ("unit", "tiny"):
         back = Q.quat_to_rgb(q.copy(), clip=True)
         ctx.check("rgb_roundtrip", np.array_equal(back, rgb.astype(np.float64)), site="quat_to_rgb(clip=True):in[0,1]")
+    if kind in ("255", "big", "int") and float(np.max(rgb.astype(np.float64))) > 1.5:
+        # the documented heuristic clips only data that "appears normalized" (all values within [-0.5, 1.5]); 8-bit style and
+        # large-magnitude images must come back unchanged from the default call
+        back = Q.quat_to_rgb(q.copy())
+        ctx.check("rgb_roundtrip", np.array_equal(back, rgb.astype(np.float64)), site="quat_to_rgb(default):not_normalized", detail={"kind": kind})
     qc = q.copy()
     _ = Q.quat_to_rgb(qc, clip=True)
     ctx.check("rgb_roundtrip", np.array_equal(qc, q), site="quat_to_rgb:input_unchanged")
